@@ -66,10 +66,12 @@ def intervals_to_idx(iv):
     return np.concatenate([np.arange(s, e) for s, e in iv]) if iv else np.zeros(0, np.int64)
 
 
-def check_case(case, rec=None):
+def check_case(case, rec=None, compiled=None):
+    """compiled = (Artefact, compile result with labels) lets another property (C10 part B) reuse the walk; violations on an operand that is a cascade rolling
+    buffer carry the extra tag 'ifm-rolling-buffer'"""
     tags_c = constructs.tags(case["spec"], case["cfg"])
     try:
-        art, res = e2e.compile_case(case, capture=True)
+        art, res = compiled if compiled is not None else e2e.compile_case(case, capture=True)
     except (artefact.ArtefactError, vmodel.ModelError, payload.PayloadError, csdec.DecodeError) as e:
         raise Violation("C03/artefact-malformed", "%s: %s" % (type(e).__name__, e), case, tags_c)
     if res.get("harness"):
@@ -79,6 +81,7 @@ def check_case(case, rec=None):
             rec.cls("not-compiled" if art is None else "no-npu-op")
         return
     accel = art.accel
+    tags_base = tags_c
     labels_per_stream = [cap["ops"] for cap in res["captured"]]
     arena = max([art.arena_size()] + [art.nbytes(n.scratch_i) for n in art.npu_ops] + [1])
     fast = max([art.nbytes(n.fast_i) for n in art.npu_ops] + [1])
@@ -192,6 +195,7 @@ def check_case(case, rec=None):
                 operands.append(("ifm2", f["ifm2"], shape2, lab.get("ifm2_eq"), lab.get("ifm2_box"), None))
             rev = bool(f.get("broadcast", {}).get("reverse")) if c.kind == "elementwise" else False
             for what, fm, shape, eq, box, full in operands:
+                tags_c = tags_base + (("ifm-rolling-buffer",) if (what == "ifm" and lab.get("ifm_sub_purpose") == "RollingBufferY") else ())
                 if shape[0] <= 0 or shape[1] <= 0:
                     raise Violation("C03/empty-read", "%s derives an empty %s extent %s" % (where(), what, shape), case, tags_c)
                 addr = npusim.fm_addresses(fm, *shape)
@@ -237,6 +241,7 @@ def check_case(case, rec=None):
                             j = bad[0]
                             raise Violation("C03/stale-row", "%s reads row %d of its IFM at address %d of region %s, but the byte holds row %d written by operation %s (%d byte(s) stale)" % (
                                 where(), int(rows_expected[j]), int(idx[j]), fm["region"], int(got_rows[j]), infos.get(int(wr[j])), bad.size), case, tags_c)
+            tags_c = tags_base
             # weights / scales
             for key in ("weights", "scales"):
                 if key not in f:
